@@ -85,7 +85,7 @@ func VerifC02SetSpecialNum() {
 	err := p.setSpecial(idx, num(x))
 	verifAssert(verifIsAwkError(err), "setSpecial returned a foreign error")
 	if idx == ast.V_NF && err == nil {
-		verifAssert(len(p.fields) <= 8 && x >= 0, "NF accepted a value outside 0..maxFieldIndex")
+		verifAssert(len(p.fields) <= 8 && x > -1, "NF accepted a value outside 0..maxFieldIndex")
 	}
 	if idx == ast.V_NF && x > maxFieldIndex+1 {
 		verifKnown("C02-huge-float-index", x >= 9.2e18)
